@@ -501,6 +501,34 @@ Json::Value genJsonDoc() {
     (*p)["args"][an] = bad;
     c["expect"] = "reject";
     c["defect"] = "argument " + an + " of " + (*p)["name"].asString() + " is " + jstr(bad);
+  } else if (j["detectors"].size() > 0 && P(35)) {
+    // the shape of a detector group: [name, plugin...] - a string anywhere else is not a plugin, a
+    // group without a leading name is unnamed
+    Json::Value& g = j["detectors"][R(0, (int)j["detectors"].size() - 1)];
+    Json::Value ng(Json::arrayValue);
+    int kind = R(0, 3);
+    if (kind == 0) {
+      int at = R(1, (int)g.size());
+      for (int i = 0; i < (int)g.size(); i++) {
+        if (i == at) ng.append("stray");
+        ng.append(g[i]);
+      }
+      if (at == (int)g.size()) ng.append("stray");
+      c["defect"] = "a string at position " + std::to_string(at) + " of a detector group";
+    } else if (kind == 1) {
+      for (int i = 1; i < (int)g.size(); i++) ng.append(g[i]);
+      c["defect"] = "a detector group without a name";
+    } else if (kind == 2) {
+      for (int i = 1; i < (int)g.size(); i++) ng.append(g[i]);
+      ng.append(g[0]);
+      c["defect"] = "the group's name after its plugins";
+    } else {
+      ng.append(7);
+      for (int i = 1; i < (int)g.size(); i++) ng.append(g[i]);
+      c["defect"] = "a number as the group's name";
+    }
+    g = ng;
+    c["expect"] = "reject";
   } else if (!withArgs.empty() && P(50)) {
     // scalars of another JSON type are fine: numbers and booleans are documented
     Json::Value* p = withArgs[R(0, (int)withArgs.size() - 1)];
